@@ -17,90 +17,145 @@
 (*   sessions.                                                             *)
 (* BugRelinkDrop: when the stream of a link is re-opened, the exit of the  *)
 (*   replaced session drops the neighbour from the peer table.             *)
+(* BugRelinkKeep: what a neighbour announced on an earlier stream of a     *)
+(*   link is kept when the stream is re-opened (the code before fix D28):  *)
+(*   an un-announcement lost with the old stream leaves a ghost.           *)
+(* BugHoldBreak: the loop releases the lock between its two critical       *)
+(*   sections (IterA: pending sessions get the initial set and become       *)
+(*   targets; IterB: sweep), so a subscription can be added or released    *)
+(*   and a stream replaced in between (the code before fix D29): the sweep *)
+(*   then acts on another state than the initial set was computed from.    *)
+(*   Without it the two sections are one step.                             *)
+(* The stream of a link can break (Break) and be re-opened later           *)
+(* (Reopen), or be replaced in one step (Relink).  Frames in flight on the *)
+(* old stream are lost; the new stream starts from the initial set.        *)
 (* The history variable records the environment steps for replay on real   *)
 (* floodsub nodes (w = the driver waits for the network to settle after    *)
 (* the step).                                                              *)
 (***************************************************************************)
 EXTENDS Naturals, FiniteSets, Sequences, TLC, Json
-CONSTANTS Node, Topo, InitUp, MaxTog, MaxQ, BugInitEmpty, BugStaleInit, BugRelinkDrop, BugNoRepub, BugStaleChan, Gen,
+CONSTANTS Node, Topo, InitUp, MaxTog, MaxQ, BugInitEmpty, BugStaleInit, BugRelinkDrop, BugNoRepub, BugStaleChan, BugRelinkKeep, BugHoldBreak, Gen,
           WSet    \* allowed values of w: BOOLEAN, or {TRUE} for big-step histories only
 Link == {<<a, b>> \in Node \X Node : {a, b} \in Topo /\ a # b}
-VARIABLES up, pend, sess, chan, subs, pubbed, view, q, cache, frozen, togs, relinks, waited, hist, done
-vars == <<up, pend, sess, chan, subs, pubbed, view, q, cache, frozen, togs, relinks, waited, hist, done>>
+VARIABLES up, pend, sess, chan, subs, pubbed, view, q, cache, frozen, togs, relinks, waited, hist, done,
+          mid,     \* [Node -> BOOLEAN]: the node's loop is between its two critical sections
+          broken   \* links whose pubsub stream broke and was not re-opened yet
+vars == <<up, pend, sess, chan, subs, pubbed, view, q, cache, frozen, togs, relinks, waited, hist, done, mid, broken>>
 Init == /\ up = InitUp
         /\ pend = [n \in Node |-> {m \in Node : {n, m} \in InitUp /\ m # n}] /\ sess = [n \in Node |-> {}]
         /\ chan = [n \in Node |-> FALSE] /\ subs = [n \in Node |-> FALSE] /\ pubbed = [n \in Node |-> FALSE]
         /\ view = [n \in Node |-> {}] /\ q = [l \in Link |-> <<>>] /\ cache = [n \in Node |-> "none"]
         /\ frozen = FALSE /\ togs = 0 /\ relinks = 0 /\ waited = TRUE
-        /\ hist = <<[a |-> "init", n |-> "", id |-> 0, subs |-> {}, w |-> TRUE]>> /\ done = FALSE
+        /\ hist = <<[a |-> "init", n |-> "", id |-> 0, subs |-> {}, w |-> TRUE, gate |-> {}]>> /\ done = FALSE
+        /\ mid = [n \in Node |-> FALSE] /\ broken = {}
 Rec(h) == hist' = IF Gen THEN Append(hist, h) ELSE hist
+\* with the hold-break the history is the full schedule of critical sections: the driver steps every node's loop through
+\* its two gate points (hook VerifGate) in exactly this order
+RecIter(a, n) == hist' = IF Gen /\ BugHoldBreak THEN Append(hist, [a |-> a, n |-> n, id |-> 0, subs |-> {}, w |-> FALSE, gate |-> {}]) ELSE hist
 Send(qq, from, tos, v) == [l \in Link |-> IF l[1] = from /\ l[2] \in tos THEN Append(qq[l], v) ELSE qq[l]]
 NeedsIter(n) == pend[n] # {} \/ (chan[n] /\ ~subs[n] /\ ~(BugStaleChan /\ ~pubbed[n])) \/ (subs[n] /\ ~pubbed[n])
-Quiet == (\A l \in Link : q[l] = <<>>) /\ \A n \in Node : ~NeedsIter(n)
-CanStim == ~done /\ (waited => Quiet)
+Quiet == (\A l \in Link : q[l] = <<>>) /\ \A n \in Node : ~NeedsIter(n) /\ ~mid[n]
+\* without the hold-break nothing happens between the two sections of an iteration
+Atomic == BugHoldBreak \/ \A n \in Node : ~mid[n]
+\* every node that is not between its two sections has settled (the driver parks a node at the hold-break: hook VerifHoldBreak)
+Parked == (\E n \in Node : mid[n]) /\ (\A l \in Link : q[l] = <<>>) /\ \A n \in Node : ~mid[n] => ~NeedsIter(n)
+CanStim == ~done /\ Atomic /\ (waited => (Quiet \/ Parked))
+Gate == {n \in Node : mid[n]}   \* recorded with every step: the nodes held at the hold-break while the step is taken
 \* ---- environment
 Toggle(n, w) == /\ CanStim /\ ~frozen /\ togs < MaxTog /\ togs' = togs + 1 /\ waited' = w
                 /\ subs' = [subs EXCEPT ![n] = ~@] /\ chan' = [chan EXCEPT ![n] = TRUE]
-                /\ Rec([a |-> "toggle", n |-> n, id |-> 0, subs |-> {}, w |-> w])
-                /\ UNCHANGED <<up, pend, sess, pubbed, view, q, cache, frozen, relinks, done>>
-\* the stream of an established link is re-opened (same peer, same link id): both ends get a new session for the same neighbour,
-\* the old session ends afterwards; the new session is handed the initial set again
-Relink(e, w) == /\ CanStim /\ ~frozen /\ e \in up /\ relinks < 1 /\ relinks' = relinks + 1 /\ waited' = w
-                /\ \A n \in e : (e \ {n}) \subseteq sess[n]
-                /\ pend' = [n \in Node |-> IF n \in e THEN pend[n] \cup (e \ {n}) ELSE pend[n]]
-                /\ Rec([a |-> "relink", n |-> "", id |-> 0, subs |-> e, w |-> w])
-                /\ UNCHANGED <<up, sess, chan, subs, pubbed, view, q, cache, frozen, togs, done>>
+                /\ Rec([a |-> "toggle", n |-> n, id |-> 0, subs |-> {}, w |-> w, gate |-> Gate])
+                /\ UNCHANGED <<up, pend, sess, pubbed, view, q, cache, frozen, relinks, done, mid, broken>>
+\* the stream of an established link ends (both sessions exit; frames in flight are lost); the link itself stays up
+Ends(e, n) == e \ {n}
+DropQ(qq, e) == [l \in Link |-> IF {l[1], l[2]} = e THEN <<>> ELSE qq[l]]
+Forget(v, e) == [n \in Node |-> IF n \in e /\ ~BugRelinkKeep THEN v[n] \ Ends(e, n) ELSE v[n]]
+Break(e, w) == /\ CanStim /\ ~frozen /\ e \in up \ broken /\ relinks < 1 /\ waited' = w
+               /\ \A n \in e : Ends(e, n) \subseteq sess[n]
+               /\ broken' = broken \cup {e}
+               /\ sess' = [n \in Node |-> IF n \in e THEN sess[n] \ Ends(e, n) ELSE sess[n]]
+               /\ q' = DropQ(q, e)
+               /\ Rec([a |-> "break", n |-> "", id |-> 0, subs |-> e, w |-> w, gate |-> Gate])
+               /\ UNCHANGED <<up, pend, chan, subs, pubbed, view, cache, frozen, togs, relinks, done, mid>>
+\* ... and is opened again (same peer, same link id): both ends get a new session, which is handed the initial set;
+\* what the neighbour announced on the old stream is forgotten
+Reopen(e, w) == /\ CanStim /\ ~frozen /\ e \in broken /\ relinks' = relinks + 1 /\ waited' = w
+                /\ broken' = broken \ {e}
+                /\ pend' = [n \in Node |-> IF n \in e THEN pend[n] \cup Ends(e, n) ELSE pend[n]]
+                /\ view' = Forget(view, e)
+                /\ Rec([a |-> "relink", n |-> "", id |-> 0, subs |-> e, w |-> w, gate |-> Gate])
+                /\ UNCHANGED <<up, sess, chan, subs, pubbed, q, cache, frozen, togs, done, mid>>
+\* the stream is replaced in one step: the old sessions are cancelled when the new ones are added
+Relink(e, w) == /\ CanStim /\ ~frozen /\ e \in up \ broken /\ relinks < 1 /\ relinks' = relinks + 1 /\ waited' = w
+                /\ \A n \in e : Ends(e, n) \subseteq sess[n]
+                /\ sess' = [n \in Node |-> IF n \in e /\ ~BugRelinkDrop THEN sess[n] \ Ends(e, n) ELSE sess[n]]
+                /\ pend' = [n \in Node |-> IF n \in e THEN pend[n] \cup Ends(e, n) ELSE pend[n]]
+                /\ q' = DropQ(q, e)
+                /\ view' = Forget(view, e)
+                /\ Rec([a |-> "relink", n |-> "", id |-> 0, subs |-> e, w |-> w, gate |-> Gate])
+                /\ UNCHANGED <<up, chan, subs, pubbed, cache, frozen, togs, broken, done, mid>>
 LinkUp(e, w) == /\ CanStim /\ ~frozen /\ e \in Topo \ up /\ up' = up \cup {e} /\ waited' = w
                 /\ pend' = [n \in Node |-> IF n \in e THEN pend[n] \cup (e \ {n}) ELSE pend[n]]
-                /\ Rec([a |-> "linkup", n |-> "", id |-> 0, subs |-> e, w |-> w])
-                /\ UNCHANGED <<sess, chan, subs, pubbed, view, q, cache, frozen, togs, relinks, done>>
-Freeze == /\ CanStim /\ ~frozen /\ Quiet /\ up = Topo /\ frozen' = TRUE /\ waited' = TRUE
-          /\ Rec([a |-> "freeze", n |-> "", id |-> 0, subs |-> {x \in Node : subs[x]}, w |-> TRUE])
-          /\ UNCHANGED <<up, pend, sess, chan, subs, pubbed, view, q, cache, togs, relinks, done>>
+                /\ Rec([a |-> "linkup", n |-> "", id |-> 0, subs |-> e, w |-> w, gate |-> Gate])
+                /\ UNCHANGED <<sess, chan, subs, pubbed, view, q, cache, frozen, togs, relinks, done, mid, broken>>
+Freeze == /\ CanStim /\ ~frozen /\ Quiet /\ up = Topo /\ broken = {} /\ frozen' = TRUE /\ waited' = TRUE
+          /\ Rec([a |-> "freeze", n |-> "", id |-> 0, subs |-> {x \in Node : subs[x]}, w |-> TRUE, gate |-> {}])
+          /\ UNCHANGED <<up, pend, sess, chan, subs, pubbed, view, q, cache, togs, relinks, done, mid, broken>>
 \* ---- one iteration of the Execute loop of node n
 InitAnn(n) == IF BugStaleInit /\ cache[n] # "none" THEN cache[n] = "yes"
               ELSE IF BugInitEmpty THEN chan[n] ELSE subs[n]
-Iter(n) ==
-  /\ NeedsIter(n)
+\* first critical section: every pending session is handed the initial set and becomes a target of announcements
+IterA(n) ==
+  /\ NeedsIter(n) /\ ~mid[n] /\ Atomic
   /\ LET new == pend[n]
          \* BugRelinkDrop: the exit of the replaced session removes the neighbour although a new session for it is registered
          s2 == IF BugRelinkDrop THEN (sess[n] \cup new) \ (sess[n] \cap new) ELSE sess[n] \cup new
          q1 == IF InitAnn(n) THEN Send(q, n, new, TRUE) ELSE q
-         unann == chan[n] /\ ~subs[n] /\ pubbed[n]
-         ann == subs[n] /\ ~pubbed[n]
-         q2 == IF unann THEN Send(q1, n, s2, FALSE) ELSE IF ann THEN Send(q1, n, s2, TRUE) ELSE q1
-     IN /\ \A m \in s2 : Len(q2[<<n, m>>]) <= MaxQ
-        /\ q' = q2 /\ sess' = [sess EXCEPT ![n] = s2] /\ pend' = [pend EXCEPT ![n] = {}]
+     IN /\ \A m \in s2 : Len(q1[<<n, m>>]) <= MaxQ
+        /\ q' = q1 /\ sess' = [sess EXCEPT ![n] = s2] /\ pend' = [pend EXCEPT ![n] = {}]
         /\ cache' = [cache EXCEPT ![n] = IF new # {} /\ @ = "none" THEN (IF InitAnn(n) THEN "yes" ELSE "no") ELSE @]
+        /\ mid' = [mid EXCEPT ![n] = TRUE]
+  /\ RecIter("itera", n)
+  /\ UNCHANGED <<up, chan, subs, pubbed, view, frozen, togs, relinks, waited, done, broken>>
+\* second critical section: sweep
+IterB(n) ==
+  /\ mid[n]
+  /\ LET unann == chan[n] /\ ~subs[n] /\ pubbed[n]
+         ann == subs[n] /\ ~pubbed[n]
+         q2 == IF unann THEN Send(q, n, sess[n], FALSE) ELSE IF ann THEN Send(q, n, sess[n], TRUE) ELSE q
+     IN /\ \A m \in sess[n] : Len(q2[<<n, m>>]) <= MaxQ
+        /\ q' = q2
         \* BugStaleChan: an empty channel entry that was never announced is not swept (the node keeps accepting messages for it)
         /\ chan' = [chan EXCEPT ![n] = IF BugStaleChan /\ chan[n] /\ ~subs[n] /\ ~pubbed[n] THEN TRUE ELSE subs[n]]
         \* BugNoRepub: the un-announcing sweep forgets to clear the 'announced' mark, so a later re-subscription is never announced
         /\ pubbed' = [pubbed EXCEPT ![n] = IF BugNoRepub /\ unann THEN TRUE ELSE subs[n]]
-  /\ UNCHANGED <<up, subs, view, frozen, togs, relinks, waited, hist, done>>
+        /\ mid' = [mid EXCEPT ![n] = FALSE]
+  /\ RecIter("iterb", n)
+  /\ UNCHANGED <<up, pend, sess, subs, view, cache, frozen, togs, relinks, waited, done, broken>>
 \* the session of n with m reads one announcement
-Recv(n, m) == /\ m \in sess[n] /\ q[<<m, n>>] # <<>>
+Recv(n, m) == /\ m \in sess[n] /\ q[<<m, n>>] # <<>> /\ Atomic
               /\ view' = [view EXCEPT ![n] = IF Head(q[<<m, n>>]) THEN @ \cup {m} ELSE @ \ {m}]
               /\ q' = [q EXCEPT ![<<m, n>>] = Tail(@)]
-              /\ UNCHANGED <<up, pend, sess, chan, subs, pubbed, cache, frozen, togs, relinks, waited, hist, done>>
+              /\ UNCHANGED <<up, pend, sess, chan, subs, pubbed, cache, frozen, togs, relinks, waited, hist, done, mid, broken>>
 \* after the freeze every node publishes once (the monitor of the real trace decides delivery by reachability)
 Finish == /\ Gen /\ ~done /\ frozen /\ Quiet /\ done' = TRUE
           /\ PrintT(<<"HIST", ToJson([topo |-> {<<CHOOSE x \in e : TRUE, CHOOSE y \in e : y # (CHOOSE x \in e : TRUE)>> : e \in InitUp},
                                       steps |-> hist \o [i \in 1..Cardinality(Node) |->
                                                            [a |-> "publish", n |-> (CHOOSE f \in [1..Cardinality(Node) -> Node] : \A j, k \in 1..Cardinality(Node) : j # k => f[j] # f[k])[i],
-                                                            id |-> i, subs |-> {}, w |-> TRUE]]])>>)
-          /\ UNCHANGED <<up, pend, sess, chan, subs, pubbed, view, q, cache, frozen, togs, relinks, waited, hist>>
+                                                            id |-> i, subs |-> {}, w |-> TRUE, gate |-> {}]]])>>)
+          /\ UNCHANGED <<up, pend, sess, chan, subs, pubbed, view, q, cache, frozen, togs, relinks, waited, hist, mid, broken>>
 Next == \/ \E n \in Node, w \in WSet : Toggle(n, w)
-        \/ \E e \in Topo, w \in WSet : LinkUp(e, w) \/ Relink(e, w)
+        \/ \E e \in Topo, w \in WSet : LinkUp(e, w) \/ Relink(e, w) \/ Break(e, w) \/ Reopen(e, w)
         \/ Freeze \/ Finish
-        \/ \E n \in Node : Iter(n)
+        \/ \E n \in Node : IterA(n) \/ IterB(n)
         \/ \E l \in Link : Recv(l[2], l[1])
 Spec == Init /\ [][Next]_vars
 \* C29: at quiescence what every neighbour believes equals the local subscription
-UpNbr(n) == {m \in Node : {n, m} \in up /\ m # n}
+UpNbr(n) == {m \in Node : {n, m} \in up \ broken /\ m # n}   \* neighbours over a link whose stream is intact
 ViewsConverged == Quiet => \A n \in Node : \A m \in UpNbr(n) : (m \in view[n]) <=> subs[m]
 \* the channel map holds no entry without a subscription once the loop has run (such an entry makes the node accept foreign messages)
 NoStaleChan == Quiet => \A n \in Node : chan[n] => subs[n]
 \* every link is eventually served by both ends
-SessionsComplete == Quiet => \A n \in Node : sess[n] = {m \in Node : {n, m} \in up /\ m # n}
-View == <<up, pend, sess, chan, subs, pubbed, view, q, cache, frozen, togs, relinks, waited>>
+SessionsComplete == Quiet => \A n \in Node : sess[n] = UpNbr(n)
+View == <<up, pend, sess, chan, subs, pubbed, view, q, cache, frozen, togs, relinks, waited, mid, broken>>
 =============================================================================
